@@ -53,54 +53,33 @@ func TestC14(t *testing.T) {
 	run := ev.New("C14", "model_checking")
 	shard, nshards, child := ev.Shard()
 	if !child {
-		// pass 1: the outcome set of every request run ALONE (all worker processes share each exploration);
-		// pass 2: pairs, judged against the merged sets
-		dir := os.Getenv("VERIF_SCRATCH")
-		if dir == "" {
-			dir = os.TempDir()
-		}
-		os.Setenv("VERIF_C14_PHASE", "alone")
-		os.Setenv("VERIF_C14_ALONE", filepath.Join(dir, "c14-alone"))
-		covA := run.RunShards("TestC14", ev.Workers())
-		merged := map[string]*c14Alone{}
-		for i := 0; i < ev.Workers(); i++ {
-			var part map[string]*c14Alone
-			b, err := os.ReadFile(fmt.Sprintf("%s-%d.json", os.Getenv("VERIF_C14_ALONE"), i))
-			if err != nil || json.Unmarshal(b, &part) != nil {
-				fmt.Printf("INFRA-ERROR C14: alone-phase result of shard %d unreadable: %v\n", i, err)
-				os.Exit(2)
-			}
-			os.Remove(fmt.Sprintf("%s-%d.json", os.Getenv("VERIF_C14_ALONE"), i))
-			for k, v := range part {
-				m := merged[k]
-				if m == nil {
-					m = &c14Alone{Complete: true, Outcomes: map[string]bool{}}
-					merged[k] = m
+		// passes 1 and 2 (see schedPasses) at deviation bound 1 - complete within the time cap, so every pair is
+		// judged against complete alone sets - and, in the thorough tier, once more at bound 2 as far as the cap
+		// allows (answers outside an INCOMPLETE alone set are not judged there)
+		cov := c14SchedPasses(run, 1)
+		cov["bound_1_exhaustive"] = cov["exhaustive"]
+		if ev.Thorough() {
+			cov2 := c14SchedPasses(run, 2)
+			for k, v := range cov2 {
+				switch k {
+				case "exhaustive":
+					cov["bound_2_exhaustive"] = v
+					if ok, _ := v.(bool); !ok {
+						cov["exhaustive"] = false
+					}
+				case "alone_outcome_sets_complete":
+					cov["bound_2_alone_outcome_sets_complete"] = v
+				case "max_deviation_bound":
+					cov[k] = v
+				default:
+					a, aok := cov[k].(int)
+					b, bok := v.(int)
+					if aok && bok {
+						cov[k] = a + b
+					} else if _, have := cov[k]; !have {
+						cov[k] = v
+					}
 				}
-				m.Complete = m.Complete && v.Complete
-				for o := range v.Outcomes {
-					m.Outcomes[o] = true
-				}
-			}
-		}
-		b, _ := json.Marshal(merged)
-		if err := os.WriteFile(os.Getenv("VERIF_C14_ALONE")+".json", b, 0o644); err != nil {
-			fmt.Printf("INFRA-ERROR C14: %v\n", err)
-			os.Exit(2)
-		}
-		os.Setenv("VERIF_C14_PHASE", "pairs")
-		cov := run.RunShards("TestC14", ev.Workers())
-		os.Remove(os.Getenv("VERIF_C14_ALONE") + ".json")
-		cov["alone_executions"] = covA["alone_executions"]
-		cov["alone_outcome_sets_complete"] = covA["exhaustive"]
-		if f, ok := covA["replay_divergences"].(float64); ok {
-			if g, ok := cov["replay_divergences"].(float64); ok {
-				cov["replay_divergences"] = f + g
-			}
-		}
-		if tv, ok := cov["traces_validated_against_impl"].(float64); ok {
-			if av, ok := covA["alone_executions"].(float64); ok {
-				cov["traces_validated_against_impl"] = tv + av
 			}
 		}
 		// pass 3: the same property on the real REST / gRPC handlers over sqlite - pairs of read requests of one
@@ -138,15 +117,21 @@ func TestC14(t *testing.T) {
 		}
 	}
 	bound := 1
-	if ev.Thorough() {
+	if os.Getenv("VERIF_C14_BOUND") == "2" {
 		bound = 2
+	} else if os.Getenv("VERIF_BUDGET_S") == "" {
+		// the bound-1 passes run under the quick tier's caps in both tiers
+		deadline = time.Now().Add(250 * time.Second)
+		if phase == "alone" {
+			deadline = time.Now().Add(100 * time.Second)
+		}
 	}
 	// operand orders chosen so that no "cheaper first" reordering of the shared AST is a no-op
 	andNot := &Expr{Op: "and", Kids: []*Expr{{Op: "not", Kids: []*Expr{{Op: "leaf", Leaf: LIncB}}}, {Op: "leaf", Leaf: LIncA}}}
 	orTrv := &Expr{Op: "or", Kids: []*Expr{{Op: "leaf", Leaf: LTrvAP}, {Op: "leaf", Leaf: LIncB}}}
 	var cov struct {
 		pairs, cancelPairs, execs, trans, states, aloneExecs, skipped, divergences int
-		complete                                       bool
+		complete                                                                   bool
 	}
 	cov.complete = true
 	n := 0
@@ -156,7 +141,7 @@ func TestC14(t *testing.T) {
 		ts := []refsem.Tuple{
 			// o1 -> g1 -> g2 -> g3 -> u and o2 -> g2: nested expansions put g2 / g3 into the visited set
 			tss("o1", "a", "g1", "a"), tss("o2", "a", "g2", "a"), tss("g1", "a", "g2", "a"), tss("g2", "a", "g3", "a"), tid("g3", "a", "u"),
-			tss("g3", "a", "g1", "a"), // cycle
+			tss("g3", "a", "g1", "a"),                      // cycle
 			tid("o1", "b", "v"), tss("o3", "a", "o3", "a"), // decoy, self loop
 		}
 		rows := w.Rows(ts)
@@ -374,7 +359,7 @@ func TestC14(t *testing.T) {
 				}
 			}
 		}
-	
+
 		// one request is cancelled at an arbitrary point while another runs: the other one's answer
 		// must still be one it gives alone, and nothing may be left behind
 		cancelFirst = true
@@ -484,7 +469,7 @@ func TestC14(t *testing.T) {
 		if after := relJSON(w.Cfg.Namespaces); after != astBefore {
 			run.Violation("shared-config-mutated-by-requests", fmt.Sprintf("the namespace AST served to all requests changed while requests ran (config %s): before %s after %s", cfg.Name, astBefore, after), map[string]any{"config": cfg.Name})
 		}
-}
+	}
 	// pagination cursors: several paginating listers share one relationtuple.ManagerWrapper (page size 1 given
 	// at construction, with and without spare capacity in the option slice); each must receive exactly the rows
 	// matching its own query, in order, whatever the interleaving
@@ -502,17 +487,74 @@ func TestC14(t *testing.T) {
 		fatalInfra("C14: %d schedule replays diverged and no oracle fired", cov.divergences)
 	}
 	run.FinishPart(map[string]any{
-		"replay_divergences":            cov.divergences,
-		"states":                        cov.states,
-		"transitions":                   cov.trans,
-		"traces_validated_against_impl": cov.execs + cov.aloneExecs,
-		"request_pairs":                 cov.pairs,
+		"replay_divergences":              cov.divergences,
+		"states":                          cov.states,
+		"transitions":                     cov.trans,
+		"traces_validated_against_impl":   cov.execs + cov.aloneExecs,
+		"request_pairs":                   cov.pairs,
 		"request_pairs_with_cancellation": cov.cancelPairs,
-		"pair_executions":               cov.execs,
-		"alone_executions":              cov.aloneExecs,
-		"max_deviation_bound":           bound,
-		"exhaustive":                    cov.complete,
+		"pair_executions":                 cov.execs,
+		"alone_executions":                cov.aloneExecs,
+		"max_deviation_bound":             bound,
+		"exhaustive":                      cov.complete,
 	})
+}
+
+// c14SchedPasses runs, at one deviation bound, pass 1 (the outcome set of every request run ALONE; all worker
+// processes share each exploration) and pass 2 (pairs, judged against the merged sets).
+func c14SchedPasses(run *ev.Run, bound int) map[string]any {
+	dir := os.Getenv("VERIF_SCRATCH")
+	if dir == "" {
+		dir = os.TempDir()
+	}
+	os.Setenv("VERIF_C14_BOUND", fmt.Sprint(bound))
+	os.Setenv("VERIF_C14_PHASE", "alone")
+	os.Setenv("VERIF_C14_ALONE", filepath.Join(dir, fmt.Sprintf("c14-alone-b%d", bound)))
+	covA := run.RunShards("TestC14", ev.Workers())
+	merged := map[string]*c14Alone{}
+	for i := 0; i < ev.Workers(); i++ {
+		var part map[string]*c14Alone
+		b, err := os.ReadFile(fmt.Sprintf("%s-%d.json", os.Getenv("VERIF_C14_ALONE"), i))
+		if err != nil || json.Unmarshal(b, &part) != nil {
+			fmt.Printf("INFRA-ERROR C14: alone-phase result of shard %d unreadable: %v\n", i, err)
+			os.Exit(2)
+		}
+		os.Remove(fmt.Sprintf("%s-%d.json", os.Getenv("VERIF_C14_ALONE"), i))
+		for k, v := range part {
+			m := merged[k]
+			if m == nil {
+				m = &c14Alone{Complete: true, Outcomes: map[string]bool{}}
+				merged[k] = m
+			}
+			m.Complete = m.Complete && v.Complete
+			for o := range v.Outcomes {
+				m.Outcomes[o] = true
+			}
+		}
+	}
+	b, _ := json.Marshal(merged)
+	if err := os.WriteFile(os.Getenv("VERIF_C14_ALONE")+".json", b, 0o644); err != nil {
+		fmt.Printf("INFRA-ERROR C14: %v\n", err)
+		os.Exit(2)
+	}
+	os.Setenv("VERIF_C14_PHASE", "pairs")
+	cov := run.RunShards("TestC14", ev.Workers())
+	os.Remove(os.Getenv("VERIF_C14_ALONE") + ".json")
+	cov["alone_executions"] = covA["alone_executions"]
+	cov["alone_outcome_sets_complete"] = covA["exhaustive"]
+	for _, k := range []string{"replay_divergences"} {
+		if a, ok := covA[k].(int); ok {
+			if c, ok := cov[k].(int); ok {
+				cov[k] = a + c
+			}
+		}
+	}
+	if tv, ok := cov["traces_validated_against_impl"].(int); ok {
+		if av, ok := covA["alone_executions"].(int); ok {
+			cov["traces_validated_against_impl"] = tv + av
+		}
+	}
+	return cov
 }
 
 var raceTop = regexp.MustCompile(`(?m)^  (github\.com/ory/keto/\S+)\(.*\)$`)
